@@ -90,7 +90,7 @@ def main():
         stats['detected'] += 1 if (c.get('detected') or any(det.get('checks', {}).get(o, {}).get('detected') for o in (m.get('also_run') or []))) else 0
         stats['initially_missed'] += 1 if m.get('initially_missed') else 0
         stats['anticipated'] += 1 if (m.get('note') or '').find('before this change was evaluated') >= 0 else 0
-    out.append('\nTotals: %d seeded changes kept over four rounds (round 1: one per property; round 2: two; rounds 3 and 4: three, with prompts steering towards degenerate shapes / symmetric reader-writer mistakes / state left for the next call, and towards type-width-layout changes / shared helpers / call-order interactions); duplicates of earlier changes were not kept. %d are reported by the quick check of the property they break on the current tree. %d of them were missed when first evaluated and led to the strengthening named in their row; for %d more the check was extended from the description of the change before it was evaluated (said in the row). Every cured miss was re-run; the rows show the final run.\n\n' % (stats['total'], stats['detected'], stats['initially_missed'], stats['anticipated']))
+    out.append('\nTotals: %d seeded changes kept over five rounds (round 1: one per property; round 2: two; rounds 3 to 5: three, with prompts steering towards degenerate shapes / symmetric reader-writer mistakes / state left for the next call, then type-width-layout changes / shared helpers / call-order interactions, then secondary entry points / error paths and clean-up / hidden shared state); duplicates of earlier changes were not kept. %d are reported by the quick check of the property they break on the current tree. %d of them were missed when first evaluated and led to the strengthening named in their row; for %d more the check was extended from the description of the change before it was evaluated (said in the row). Every cured miss was re-run; the rows show the final run.\n\n' % (stats['total'], stats['detected'], stats['initially_missed'], stats['anticipated']))
     rp = os.path.join(VERIF, 'mutants', 'results.json')
     if os.path.exists(rp):
         res = json.load(open(rp))
